@@ -512,6 +512,17 @@ func (s *vC12State) settle(extraP []string) string {
 			if c := e.peer.accept(4 * time.Second); c != nil {
 				s.pc = c
 				P = append(P, "reconnect")
+				// connect() stores the new connection and starts its read loop after the upgrade
+				deadline := time.Now().Add(3 * time.Second)
+				for time.Now().Before(deadline) {
+					f.mu.Lock()
+					ok := f.conn != nil
+					f.mu.Unlock()
+					if ok && e.hub.readPumpActive.Load() > s.base {
+						break
+					}
+					time.Sleep(100 * time.Microsecond)
+				}
 			} else {
 				stuck = s.diagnose("no-reconnect")
 			}
@@ -521,7 +532,39 @@ func (s *vC12State) settle(extraP []string) string {
 		P = append(P, stuck)
 		e.dirty = true
 	}
-	return s.collect(P)
+	was := s.localClosedSeen
+	out := s.collect(P)
+	if !was && s.localClosedSeen && s.sess != nil {
+		// the session was ended by a forwarded bye: it is closed in another goroutine, which asks
+		// the federation client to leave; wait for that and look at the peer again
+		deadline := time.Now().Add(3 * time.Second)
+		for e.hub.GetSessionByPublicId(s.lsid) != nil && time.Now().Before(deadline) {
+			time.Sleep(200 * time.Microsecond)
+		}
+		if s.pc != nil {
+			texts, closed, _ := s.pc.barrier(3 * time.Second)
+			var more []string
+			for _, t := range texts {
+				more = append(more, s.canonPeer(t))
+			}
+			if closed {
+				more = append(more, "closed")
+				s.pc = nil
+			}
+			if len(more) > 0 {
+				i := strings.Index(out, " B:")
+				p := strings.Index(out, " P:")
+				cur := out[p+3 : i]
+				if cur == "-" {
+					cur = ""
+				} else {
+					cur += "|"
+				}
+				out = out[:p+3] + cur + strings.Join(more, "|") + out[i:]
+			}
+		}
+	}
+	return out
 }
 
 // collect gathers what the local client and the bystander received.
@@ -680,6 +723,9 @@ func (s *vC12State) step(line string) string {
 	if s.local == nil {
 		return "bad-op"
 	}
+	if s.localClosedSeen && f[0] != "probe" {
+		return "session-gone"
+	}
 	switch f[0] {
 	case "peer", "peerrst", "bin":
 		if s.pc == nil {
@@ -762,6 +808,10 @@ func (s *vC12State) step(line string) string {
 			msg = fmt.Sprintf(`{"id":"m1","type":"message","message":{"recipient":{"type":"session","sessionid":%q},"data":{"type":"hi"}}}`, s.lsid)
 		default:
 			return "bad-op"
+		}
+		if s.local.dead {
+			// the session is gone (forwarded bye): nothing to do
+			return s.settle(nil)
 		}
 		fed := s.anyFed()
 		pend := -1
